@@ -291,9 +291,8 @@ def read_env(src, expr, skip_envs=(), tolerance=0, mode=MODE_NON_MATH):
                 src, 0, 0, skip=1, tolerance=tolerance, mode=mode)
             if name == 'end':
                 # only the first group names the environment; whatever follows
-                # is read again later, so it must not fail the look-ahead
-                _, args = make_read_peek(read_command)(
-                    src, skip=1, tolerance=1, mode=mode)
+                # is read again later, so it must not be read by the look-ahead
+                args = make_read_peek(read_end_name)(src, mode=mode)
                 break
         contents.append(read_expr(src, skip_envs=skip_envs, tolerance=tolerance, mode=mode))
     error = not src.hasNext() or not args or \
@@ -307,6 +306,22 @@ def read_env(src, expr, skip_envs=(), tolerance=0, mode=MODE_NON_MATH):
         read_arg(src, next(src), tolerance=tolerance)
     expr.append(*contents)
     return expr
+
+
+def read_end_name(src, mode=MODE_NON_MATH):
+    r"""Read the name group of an \end. Assumes escape is next in the buffer.
+
+    :param Buffer src: a buffer of tokens
+    :param str mode: math or not math mode
+    :return: the brace group naming the environment, if there is one
+    :rtype: TexArgs
+    """
+    src.forward(2)
+    read_spacer(src)
+    args = TexArgs()
+    if src.hasNext() and src.peek().category == TC.GroupBegin:
+        args.append(read_arg(src, next(src), tolerance=1, mode=mode))
+    return args
 
 
 ############
